@@ -26,7 +26,7 @@ class Scen:
         self.herd = herd
         self.watchdog = watchdog
         self.forced_labels = labels           # explicit label derivation function (for lock-forced schedules)
-        self.np = self.nc = self.na = self.nl = 0
+        self.np = self.nc = self.na = self.nl = self.ni = 0
 
     def poll(self, t, sid, nat, clients=0, ptype="standalone"):
         k = self.np; self.np += 1
@@ -42,6 +42,23 @@ class Scen:
         k = self.na; self.na += 1
         self.events.append(dict(kind="A", k=k, t=t, sid=sid, ans=ans, after=after_poll))
         return k
+
+    def install(self, t, bridges):
+        """InstallBridgeListProfile in the middle of the scenario (replaces the whole list)"""
+        k = self.ni; self.ni += 1
+        self.events.append(dict(kind="I", k=k, t=t, bridges=list(bridges)))
+        return k
+
+    def lists_from(self, t):
+        """the list current at time t and every list installed later"""
+        cur = self.bridge_list()
+        later = []
+        for e in sorted((e for e in self.events if e["kind"] == "I"), key=lambda e: e["t"]):
+            if e["t"] <= t:
+                cur = e["bridges"]
+            else:
+                later.append(e["bridges"])
+        return [dict(cur)] + [dict(b) for b in later]
 
     def lock(self, t, dur):
         k = self.nl; self.nl += 1
@@ -62,6 +79,8 @@ class Scen:
                 ev.append("A%d:%s:%s@%s" % (e["k"], e["sid"], e["ans"], when))
             elif e["kind"] == "L":
                 ev.append("L%d:%d@%d" % (e["k"], e["dur"], e["t"]))
+            elif e["kind"] == "I":
+                ev.append("I%d:%s@%d" % (e["k"], ";".join("%s=%s" % b for b in e["bridges"]) or "-", e["t"]))
         if self.watchdog:
             ev.append("W0:%d@0" % self.watchdog)
         if not self.herd and not self.forced_labels:
@@ -82,12 +101,13 @@ def parse_obs(line):
 class Tags:
     """strings <-> integer tags for the model"""
     def __init__(self):
-        self.m = {}
-        self.r = {}
+        # tag 0 is the model's default_fp / default_url (Model/Broker.v): the defaulting itself is done by the model
+        self.m = {DEFAULT_FP: 0, DEFAULT_URL: 0}
+        self.r = {0: DEFAULT_URL}
 
     def __call__(self, s):
         if s not in self.m:
-            self.m[s] = len(self.m) + 1
+            self.m[s] = len(self.m)
             self.r[self.m[s]] = s
         return self.m[s]
 
@@ -162,8 +182,9 @@ def derive_labels(sc, obs, tags):
                 r = obs.get("P%d" % en["k"], "")
                 if en["state"] == "wait" and r.startswith("match:") and r.split(":")[1] == e["offer"]:
                     choice = p
-            fp = fpkey(e["fp"])
-            labels.append("C:%s:%d:%d:%s" % (NATS[e["nat"]], tags(fp), tags(e["offer"]), "-" if choice is None else str(choice)))
+            fp = fpkey(e["fp"])    # only to pick the follow-up labels; the label itself carries the field as sent
+            labels.append("C:%s:%s:%d:%s" % (NATS[e["nat"]], "-" if e["fp"] == "-" else str(tags(e["fp"])), tags(e["offer"]),
+                                             "-" if choice is None else str(choice)))
             if choice is not None and fp in bridges:
                 en = entries[choice]
                 en["state"] = "matched"
@@ -185,6 +206,9 @@ def derive_labels(sc, obs, tags):
                 labels.extend(["FC:%d" % e["p"], "CT:%d" % e["p"], "CC:%d" % e["p"]])
                 en["cwait"] = False
                 idmap.pop(en["sid"], None)
+        elif e["kind"] == "I":
+            labels.append(install_label(e["bridges"], tags))
+            bridges.clear(); bridges.update(dict(e["bridges"]))
         elif e["kind"] == "A":
             do_answer(t, e)
         elif e["kind"] == "Arel":
@@ -192,10 +216,14 @@ def derive_labels(sc, obs, tags):
     return labels, names
 
 
-def model_line(sc, labels, tags, version="v1"):
-    br = sc.bridge_list()
-    return "broker run %s %s %s" % (version, ",".join("%d=%d" % (tags(f), tags(u)) for f, u in br),
-                                    ",".join(labels) if labels else "-")
+def install_label(bridges, tags):
+    return "I:" + (";".join("%d=%d" % (tags(f), tags(u)) for f, u in bridges) or "-")
+
+
+def model_line(sc, labels, tags, version="v1", op="run"):
+    # the model starts from the built-in default bridge (NewBrokerContext) and installs the scenario's list, if any
+    br = ",".join("%d=%d" % (tags(f), tags(u)) for f, u in sc.bridges) if sc.bridges is not None else "-"
+    return "broker %s %s %s %s" % (op, version, br, ",".join(labels) if labels else "-")
 
 
 def canon_impl(sc, obs):
@@ -203,7 +231,7 @@ def canon_impl(sc, obs):
     d = {}
     for k, v in obs.items():
         if k[0] == "P" and k[1:].isdigit():
-            d[k] = v
+            d[k] = "error" if v == "http:500" else v
         elif k[0] == "C" and k[1:].isdigit():
             d[k] = "badfp" if v == "http:500" else v
         elif k[0] == "A" and k[1:].isdigit():
@@ -254,10 +282,12 @@ def check_history(sc, obs):
                 bad.append(("C02", "offer-delivered-twice", "offer of C%d reached polls P%d and P%d" % (c["k"], got[c["k"]], pk)))
             got[c["k"]] = pk
             fp = DEFAULT_FP if c["fp"] == "-" else c["fp"]
-            if fp not in bridges:
+            lists = sc.lists_from(c["t"])    # the list the client was checked against, then every later one
+            if fp not in lists[0]:
                 bad.append(("C02", "unknown-bridge-matched", "client C%d named unknown bridge %s but P%d got its offer" % (c["k"], fp, pk)))
-            elif relay != bridges[fp]:
-                bad.append(("C02", "wrong-relay-url", "P%d got relay %s, client C%d named bridge %s -> %s" % (pk, relay, c["k"], fp, bridges[fp])))
+            elif relay not in [b[fp] for b in lists if fp in b]:
+                bad.append(("C02", "wrong-relay-url", "P%d got relay %s, client C%d named bridge %s -> %s" % (
+                    pk, relay, c["k"], fp, [b.get(fp) for b in lists])))
             want_nat = c["nat"] if c["nat"] else "unknown"
             if cnat != want_nat:
                 bad.append(("C02", "wrong-client-nat", "P%d was told client NAT %s, client sent %s" % (pk, cnat, want_nat)))
@@ -321,7 +351,7 @@ def check_sequential(sc, obs):
                     ((polls[k]["nat"] or "unknown") != "unrestricted" if cn == "unrestricted" else (polls[k]["nat"] or "unknown") == "unrestricted")]
             r = obs.get("C%d" % e["k"], "")
             fp = DEFAULT_FP if e["fp"] == "-" else e["fp"]
-            if fp not in bridges:
+            if fp not in sc.lists_from(t)[0]:
                 continue
             chosen = by_offer.get(e["offer"])
             if r == "noproxies" and elig:
@@ -363,6 +393,8 @@ def run_scenarios(ctx, scens, props, label):
                 labels, names = sc.forced_labels(sc, obs, tags)
             else:
                 labels, names = derive_labels(sc, obs, tags)
+            if getattr(sc, "forced_achieved", None) is not None:
+                ctx.extra["reinstall_race_forced"] = ctx.extra.get("reinstall_race_forced", 0) + (1 if sc.forced_achieved else 0)
             mlines.append(model_line(sc, labels, tags))
             minfo.append((sc, line, o, obs, names, tags))
     if mlines:
@@ -396,7 +428,7 @@ def f1_labels(sc, obs, tags):
     c = [e for e in sc.events if e["kind"] == "C"][0]
     labels = ["P:%d:%s:%d:%d" % (tags(p["sid"]), NATS[p["nat"]], tags(p["ptype"]), p["clients"]),
               "FW:0", "WT:0",
-              "C:%s:%d:%d:0" % (NATS[c["nat"]], tags(DEFAULT_FP), tags(c["offer"])),
+              "C:%s:-:%d:0" % (NATS[c["nat"]], tags(c["offer"])),
               "WC:0", "RO:0", "RF:0"]
     names = {"P0": "P0", "C0": "C0"}
     rel = [e for e in sc.events if e["kind"] == "A"]
@@ -406,6 +438,33 @@ def f1_labels(sc, obs, tags):
         names["A0"] = "A%d" % a["k"]
     else:
         labels += ["FC:0", "CT:0", "CC:0"]
+    return labels, names
+
+
+def reinstall_race_labels(sc, obs, tags):
+    """poll@0; lock held 300..2700; client@1000 (passes the bridge check, then queues on the lock inside
+    matchSnowflake); a new list is installed @1900; the lock is released and the proxy handler looks the relay URL up
+    in the NEW list. If the machine was too slow to force this order (the proxy was told the old URL), the labels of
+    the unforced order are produced instead: both are runs of the model."""
+    p = [e for e in sc.events if e["kind"] == "P"][0]
+    c = [e for e in sc.events if e["kind"] == "C"][0]
+    ins = [e for e in sc.events if e["kind"] == "I"][0]
+    old = dict(sc.bridge_list())
+    r = obs.get("P0", "")
+    forced = not (r.startswith("match:") and r.split(":", 3)[3] == old.get(c["fp"]) != dict(ins["bridges"]).get(c["fp"]))
+    lp = "P:%d:%s:%d:%d" % (tags(p["sid"]), NATS[p["nat"]], tags(p["ptype"]), p["clients"])
+    lc = "C:%s:%d:%d:0" % (NATS[c["nat"]], tags(c["fp"]), tags(c["offer"]))
+    li = install_label(ins["bridges"], tags)
+    labels = [lp, lc, li, "RO:0", "RF:0"] if forced else [lp, lc, "RO:0", "RF:0", li]
+    names = {"P0": "P0", "C0": "C0"}
+    rel = [e for e in sc.events if e["kind"] == "A"]
+    if rel and r.startswith("match:"):
+        a = rel[0]
+        labels += ["A:%d:%d" % (tags(a["sid"]), tags(a["ans"])), "AP:0", "TA:0", "CC:0"]
+        names["A0"] = "A%d" % a["k"]
+    else:
+        labels += ["FC:0", "CT:0", "CC:0"]
+    sc.forced_achieved = forced
     return labels, names
 
 
@@ -450,6 +509,25 @@ def scenarios(rng, tier):
             sc.poll(0, sid, "unrestricted")
             sc.client(300, "restricted", "{%s}" % fresh("o"), fp=fp, mode=mode)
             sc.answer(150, sid, fresh("ans"), after_poll=0)
+            S.append(sc)
+        # the list is re-installed while the broker runs: later clients are checked against, and later proxies told
+        # the URLs of, the new list; a bridge dropped by the new list is unknown from then on
+        A2 = "wss://bridge-a2.example/"
+        sc = Scen(fresh("reinst"), "bridge-reinstall", bridges=BD)
+        s1, s2, s3 = fresh("sid"), fresh("sid"), fresh("sid")
+        sc.poll(0, s1, "unrestricted"); sc.client(300, "restricted", "{%s}" % fresh("o"), fp=B2[0][0]); sc.answer(150, s1, fresh("ans"), after_poll=0)
+        sc.install(1500, [(B2[0][0], A2), (DEFAULT_FP, DEFAULT_URL)])
+        sc.poll(1800, s2, "unrestricted"); sc.client(2100, "unknown", "{%s}" % fresh("o"), fp=B2[0][0], mode="a"); sc.answer(150, s2, fresh("ans"), after_poll=1)
+        sc.poll(2500, s3, "unrestricted"); sc.client(2800, "restricted", "{%s}" % fresh("o"), fp=B2[1][0])
+        sc.client(3200, "restricted", "{%s}" % fresh("o"), fp="-", mode="l"); sc.answer(150, s3, fresh("ans"), after_poll=2)
+        S.append(sc)
+        # ... and in the window between a client's bridge check and the proxy handler's own lookup (lock-forced):
+        # the proxy is told the NEW url of that bridge, or - when the new list dropped the bridge - gets an error
+        for newlist in ([(B2[0][0], A2), (DEFAULT_FP, DEFAULT_URL)], [(B2[1][0], B2[1][1]), (DEFAULT_FP, DEFAULT_URL)]):
+            sc = Scen(fresh("reinstrace"), "bridge-reinstall-race", bridges=BD, watchdog=16000, labels=reinstall_race_labels)
+            sid = fresh("sid")
+            sc.poll(0, sid, "unrestricted"); sc.lock(300, 2400); sc.client(1000, "restricted", "{%s}" % fresh("o"), fp=B2[0][0])
+            sc.install(1900, newlist); sc.answer(150, sid, fresh("ans"), after_poll=0)
             S.append(sc)
         # least loaded among several, mixed pools
         for _i in range(3):
@@ -542,3 +620,174 @@ def scenarios(rng, tier):
                 sc.answer(10000 + rng.randrange(-20, 20), sid, fresh("ans"), after_poll=j)
             S.append(sc)
     return S
+
+
+# ---------------------------------------------------------------- SnowflakeHeap scripts (C03: `broker heap`)
+# The extracted Model/BrokerHeap.v xstep (the definition the index-consistency and refinement theorems are about)
+# and the real SnowflakeHeap driven through container/heap run the same scripted Push/Pop/Remove(i)/Fix sequences;
+# after every operation the element handed back, the slice order and every element's `index` field are compared,
+# and the heap's contract is evaluated on the implementation's own output.
+
+PTYPES = ["standalone", "webext", "badge", "iptproxy", ""]
+
+
+def heap_cases(rng, tier):
+    cases = []   # (kind, [ops])
+    nid = [0]
+
+    def push(c, pt=None):
+        nid[0] += 1
+        return "u:%d:%d:%s" % (nid[0], c, rng.choice(PTYPES) if pt is None else pt)
+
+    def case(kind, ops):
+        cases.append((kind, ops))
+        nid[0] = 0
+
+    # exhaustive small scope: every load vector over {0,1,2} of length 1..4, then every single removal / pops to empty
+    import itertools
+    for n in (1, 2, 3, 4):
+        for loads in itertools.product((0, 1, 2), repeat=n):
+            if n == 4 and tier == "quick" and rng.random() < 0.6:
+                continue
+            ops = [push(c, "standalone" if (i + sum(loads)) % 2 else "webext") for i, c in enumerate(loads)]
+            tail = rng.choice(["pop", "rem"])
+            if tail == "pop":
+                case("heap-small-pop-all", ops + ["o"] * (n + 1))
+            else:
+                i = rng.randrange(0, n + 1)
+                case("heap-small-remove", ops + ["r:%d" % i] + ["o"] * n)
+    # equal loads: ties everywhere, mixed proxy types (a Less that looks at anything but the load changes the order)
+    for n in (2, 3, 5, 8, 13):
+        for c in (0, 7):
+            ops = [push(c, PTYPES[i % len(PTYPES)]) for i in range(n)]
+            case("heap-equal-loads", ops + ["o"] * (n // 2) + ["r:0", "r:%d" % max(0, n - n // 2 - 2)] + ["o"] * n)
+    # mixed proxy types with distinct loads: the standalone ones are the busiest
+    for n in (2, 3, 4, 6, 9):
+        loads = rng.sample(range(0, 40), n)
+        srt = sorted(loads)
+        ops = [push(c, "standalone" if c >= srt[len(srt) // 2] else rng.choice(["webext", "badge", "iptproxy"])) for c in loads]
+        case("heap-mixed-types", ops + ["o"] * (n + 1))
+        ops = [push(c, "standalone" if c >= srt[len(srt) // 2] else rng.choice(["webext", "badge", "iptproxy"])) for c in loads]
+        case("heap-mixed-types", ops[: n // 2] + ["o"] + ops[n // 2:] + ["o"] * n)
+    # remove first / last / middle / out of range, remove after pop, then drain
+    for n in (1, 2, 3, 5, 7, 10, 15):
+        for where in ("first", "last", "middle", "beyond", "after-pop"):
+            ops = [push(rng.randrange(0, 6)) for _ in range(n)]
+            if where == "first":
+                ops.append("r:0")
+            elif where == "last":
+                ops.append("r:%d" % (n - 1))
+            elif where == "middle":
+                ops.append("r:%d" % (n // 2))
+            elif where == "beyond":
+                ops.append("r:%d" % n)
+            else:
+                ops += ["o", "r:%d" % rng.randrange(0, max(1, n - 1)), "r:%d" % max(0, n - 2)]
+            case("heap-remove-" + where, ops + [push(rng.randrange(0, 6))] + ["o"] * (n + 1))
+    # Fix: raise the root, lower a leaf, no change, out of range
+    for n in (1, 3, 6, 11):
+        ops = [push(rng.randrange(0, 9)) for _ in range(n)]
+        ops += ["f:0:%d" % rng.randrange(5, 20), "f:%d:0" % (n - 1), "f:%d:%d" % (n // 2, rng.randrange(0, 9)), "f:%d:3" % n]
+        case("heap-fix", ops + ["o"] * (n + 1))
+    # random walks with many ties
+    reps = 60 if tier == "quick" else 600
+    for _ in range(reps):
+        ops = []
+        size = 0
+        hi = rng.choice([2, 3, 8, 50])
+        for _j in range(rng.randrange(4, 36)):
+            r = rng.random()
+            if r < 0.5 or size == 0:
+                ops.append(push(rng.randrange(0, hi))); size += 1
+            elif r < 0.72:
+                ops.append("o"); size -= 1
+            elif r < 0.92:
+                i = rng.randrange(0, size + 1)
+                ops.append("r:%d" % i)
+                if i < size:
+                    size -= 1
+            else:
+                ops.append("f:%d:%d" % (rng.randrange(0, size + 1), rng.randrange(0, hi)))
+        case("heap-random", ops + ["o"] * rng.randrange(0, size + 2))
+    return cases
+
+
+def heap_prop(line, impl, model):
+    """SnowflakeHeap's contract evaluated on the implementation's own output."""
+    ops = line.split(" ")[2].split(",")
+    segs = impl.split(" ") if impl else []
+    if len(segs) != len(ops):
+        return "heap driver answered %d segments for %d operations: %s" % (len(segs), len(ops), impl[:200])
+    arr = []     # [(id, clients)]
+    gone = []    # ids
+    for k, (op, seg) in enumerate(zip(ops, segs)):
+        try:
+            ret, a, o = seg.split("/")
+            now = [] if a == "-" else [tuple(x.split(":")) for x in a.split(".")]
+            out = [] if o == "-" else [tuple(x.split(":")) for x in o.split(".")]
+        except ValueError:
+            return "unparsable segment %d: %s" % (k, seg)
+        f = op.split(":")
+        before = list(arr)
+        exp = sorted(before)
+        if f[0] == "u":
+            exp = sorted(before + [(f[1], int(f[2]))])
+        elif f[0] == "o" and before:
+            m = min(c for _, c in before)
+            got = [c for i, c in before if i == ret]
+            if not got or got[0] != m:
+                return "op %d (Pop): handed back %s (load %s) while the smallest load in the heap was %d; heap before: %s" % (
+                    k, ret, got[0] if got else "?", m, before)
+            exp = sorted(x for x in before if x[0] != ret)
+            gone.append(ret)
+        elif f[0] == "r" and int(f[1]) < len(before):
+            want = before[int(f[1])][0]
+            if ret != want:
+                return "op %d (Remove %s): handed back %s, element at that position was %s" % (k, f[1], ret, want)
+            exp = sorted(x for x in before if x[0] != ret)
+            gone.append(ret)
+        elif f[0] == "f" and int(f[1]) < len(before):
+            i = int(f[1])
+            exp = sorted(before[:i] + [(before[i][0], int(f[2]))] + before[i + 1:])
+        elif ret != "-":
+            return "op %d (%s) on a heap of %d handed back %s" % (k, op, len(before), ret)
+        arr = [(i, int(c)) for i, c, _ in now]
+        if sorted(arr) != exp:
+            return "op %d (%s): contents changed: expected %s, slice holds %s" % (k, op, exp, sorted(arr))
+        for pos, (i, c, idx) in enumerate(now):
+            if int(idx) != pos:
+                return "op %d (%s): element %s at position %d has index %s" % (k, op, i, pos, idx)
+        if [i for i, _ in out] != gone:
+            return "op %d (%s): elements that left the heap: expected %s, got %s" % (k, op, gone, out)
+        for i, idx in out:
+            if int(idx) != -1:
+                return "op %d (%s): element %s left the heap but has index %s" % (k, op, i, idx)
+        # the slice is heap ordered (what makes the NEXT Pop correct)
+        for pos in range(1, len(arr)):
+            if arr[pos][1] < arr[(pos - 1) // 2][1]:
+                return "op %d (%s): slice not heap ordered at position %d: %s" % (k, op, pos, arr)
+    return None
+
+
+def heap_key(line, impl, model):
+    bad = heap_prop(line, impl, model) or ""
+    if "(Pop): handed back" in bad:
+        return "heap-pop-not-least-loaded"
+    if "has index" in bad:
+        return "heap-index-inconsistent"
+    if "not heap ordered" in bad:
+        return "heap-order-broken"
+    if "(Remove" in bad:
+        return "heap-remove-wrong-element"
+    return "heap-contents"
+
+
+def run_heap(ctx, label="snowflake-heap"):
+    exe = vlib.go_test_build("./broker", name="broker.test")
+    os.environ["VERIF_DRIVER"] = "broker"
+    cases = heap_cases(ctx.rng, ctx.tier)
+    lines = ["broker heap " + (",".join(ops) if ops else "-") for _, ops in cases]
+    kinds = [k for k, _ in cases]
+    ctx.correspond(exe, lines, kinds=kinds, label=label, prop=heap_prop, key_of=heap_key,
+                   impl_args=["-test.run", "^TestVerifBrokerDriver$"])
+    ctx.extra["heap_scripts"] = len(lines)
